@@ -141,6 +141,8 @@ func (r *runner) elect(p *proc) (acquired bool) {
 	bc, bu := lib.ElMarshal(createRec), lib.ElMarshal(updateRec)
 	wcls := g
 	ok := false
+	// the harness's own reading of the engine clock right before the acquiring write
+	clockBefore, _ := r.kv.GetTimestampOracle(context.Background())
 	switch {
 	case err != nil && apierrors.IsNotFound(err):
 		werr := lock.Create(createRec)
@@ -177,6 +179,9 @@ func (r *runner) elect(p *proc) (acquired bool) {
 					r.fail = fmt.Sprintf("GetElectionInfo disagrees with the driver's parse of %q: %v %v", info, ei, eerr)
 				}
 				version = v
+				if version < clockBefore {
+					r.fail = fmt.Sprintf("the version parsed from Describe() after the acquiring write (%d) is older than the engine clock read just before that write (%d): a stale timestamp would be installed", version, clockBefore)
+				}
 				p.b.SetCurrentRevision(version) // leader.go:105
 				p.expect = version
 				eres = lib.App("EAcquired", lib.N(version))
@@ -199,6 +204,25 @@ func (r *runner) elect(p *proc) (acquired bool) {
 		outc: "elect:" + strings.SplitN(strings.Trim(eres, "()"), " ", 2)[0],
 	})
 	return acquired
+}
+
+// standbyGet: a standby node polls the lock (resourceLock.Get() as its elector does every retry
+// period) without acquiring: its r.tso is now a reading from long before any take-over.
+func (r *runner) standbyGet(p *proc) {
+	c0, _, _ := p.tap.Snapshot()
+	_, err := p.b.GetResourceLock().Get()
+	c1, t1, _ := p.tap.Snapshot()
+	if c1 == c0 {
+		t1 = 0
+	}
+	cls := lib.ElClassGet(err)
+	r.steps = append(r.steps, stepObs{
+		Act:  fmt.Sprintf("standby proc=%d polls the lock (Get)", p.n),
+		Obs:  map[string]interface{}{"get": cls, "t": t1, "describe": p.b.GetResourceLock().Describe()},
+		coqA: lib.App("AGet", lib.N(uint64(p.n)), lib.N(t1)),
+		coqO: lib.App("OGet", cls),
+		outc: "standby-get:" + cls,
+	})
 }
 
 func optCoq(b []byte, ok bool) string {
@@ -358,6 +382,12 @@ type caseSpec struct {
 	History []hop  `json:"history"`
 	Stop    int    `json:"stop_after"`
 	Kind    string `json:"kind"`
+	// Standby: node B is up from the start and polls the lock (Get) at its start-up and again later, long
+	// before it takes over; no engine reopen in this flavour (the standby keeps its engine handle).
+	Standby bool `json:"standby,omitempty"`
+	// RestartAt >= 0: after that many requests the leader A stops and a NEW process with the same identity A
+	// is elected and serves the rest of the prefix.
+	RestartAt int `json:"restart_leader_at"`
 }
 
 func engCoq(e string) string {
@@ -397,18 +427,49 @@ func runCase(cs caseSpec, scratch string) (lib.Case, *lib.ImplFailure) {
 	// old leader
 	p1 := newProc(1, "A", r.kv)
 	r.elect(p1)
+	var p2 *proc
+	if cs.Standby {
+		p2 = newProc(2, "B", r.kv)
+		r.standbyGet(p2) // B's start-up: its timestamp is from now
+	}
 	live := map[string]uint64{} // key -> true revision, as the responses told it
-	for _, o := range cs.History[:cs.Stop] {
+	cur := p1
+	for i, o := range cs.History[:cs.Stop] {
 		if r.fail != "" {
 			break
 		}
+		if cs.RestartAt >= 0 && i == cs.RestartAt {
+			// the leader restarts under the same identity: a new process, elected through the lock again
+			if cs.Engine == lib.EngBadger && !cs.Standby {
+				lib.ElRetire()
+				if err := r.kv.Close(); err != nil {
+					r.fail = "closing Badger failed: " + err.Error()
+					break
+				}
+				if r.kv, err = ibadger.NewKvStorage(ibadger.Config{Dir: dir}); err != nil {
+					return lib.Case{}, &lib.ImplFailure{What: "Badger does not reopen: " + err.Error(), Case: js}
+				}
+				r.steps = append(r.steps, stepObs{Act: "restart: engine closed and reopened on the same directory", Obs: "ok", coqA: "ARestart", coqO: "ORestart", outc: "restart"})
+			}
+			p3 := newProc(3, "A", r.kv)
+			if !r.elect(p3) {
+				r.fail = "the restarted leader could not re-acquire its own lock"
+				break
+			}
+			cur = p3
+			if cs.Standby {
+				r.standbyGet(p2)
+			}
+		}
 		o = resolve(o, live)
-		class, hdr := r.serve(p1, o)
+		class, hdr := r.serve(cur, o)
 		track(live, o, class, hdr)
 	}
-	// stop the old leader; restart / fail over
-	lib.ElRetire()
-	if cs.Engine == lib.EngBadger && r.fail == "" {
+	// stop the old leader; restart / fail over (a standby's Backend was created earlier: nothing is retired then)
+	if !cs.Standby {
+		lib.ElRetire()
+	}
+	if cs.Engine == lib.EngBadger && !cs.Standby && r.fail == "" {
 		if err := r.kv.Close(); err != nil {
 			r.fail = "closing Badger failed: " + err.Error()
 		} else if r.kv, err = ibadger.NewKvStorage(ibadger.Config{Dir: dir}); err != nil {
@@ -417,7 +478,9 @@ func runCase(cs caseSpec, scratch string) (lib.Case, *lib.ImplFailure) {
 		r.steps = append(r.steps, stepObs{Act: "restart: engine closed and reopened on the same directory", Obs: "ok", coqA: "ARestart", coqO: "ORestart", outc: "restart"})
 	}
 	if r.fail == "" {
-		p2 := newProc(2, "B", r.kv)
+		if p2 == nil {
+			p2 = newProc(2, "B", r.kv)
+		}
 		if r.elect(p2) {
 			pre := r.list(p2)
 			n := 0
@@ -457,11 +520,9 @@ func runCase(cs caseSpec, scratch string) (lib.Case, *lib.ImplFailure) {
 	js["handover_base"] = r.lastBase
 	js["max_stored_revision_at_handover"] = r.lastMax
 	if r.fail != "" {
-		code := 0
-		if cs.Engine == lib.EngBadger && r.lastBase < r.lastMax {
-			code = 1
-		}
-		return lib.Case{}, &lib.ImplFailure{Code: code, What: r.fail, Case: js}
+		// stalls, panics, a stale installed timestamp, a parse disagreement are never part of finding C15-F1
+		// (whose consequences — drift errors, missed keys, low revisions — are ordinary responses the Coq oracle classifies)
+		return lib.Case{}, &lib.ImplFailure{Code: 0, What: r.fail, Case: js}
 	}
 	xs := make([]string, len(r.steps))
 	outs := []string{}
@@ -581,6 +642,11 @@ func (m *gaugeMetrics) EmitGauge(name string, v interface{}, t ...metrics.T) err
 	m.mu.Lock()
 	m.seen[name] = v
 	m.mu.Unlock()
+	if name == "leader.election.initial.version" {
+		// leader.go emits this gauge between parsing the version and SetCurrentRevision: hold the
+		// callback here so that a client polling IsLeader() has a wide window
+		time.Sleep(300 * time.Millisecond)
+	}
 	return nil
 }
 
@@ -620,15 +686,64 @@ func campaignCase(scratch string, hist []hop) *lib.ImplFailure {
 	gm := &gaugeMetrics{seen: map[string]interface{}{}}
 	started := make(chan struct{})
 	le := leader.NewLeaderElection(p2.b, gm, func(context.Context) { close(started) }, func() {})
+	// a client that is admitted as soon as IsLeader() says so (the role check of the front-ends) and at once
+	// issues a guarded Update of a pre-existing key and a Create: the flag must imply an installed base
+	type early struct {
+		updClass, creClass string
+		updRev, creRev     uint64
+	}
+	earlyDone := make(chan early, 1)
+	probeKey := prefix + "/b"
+	probeRev := trueRevision(kv, probeKey)
+	go func() {
+		deadline := time.Now().Add(25 * time.Second)
+		for !le.IsLeader() {
+			if time.Now().After(deadline) {
+				earlyDone <- early{updClass: "never-leader"}
+				return
+			}
+			time.Sleep(50 * time.Microsecond)
+		}
+		var e early
+		ctx := context.Background()
+		if resp, err := p2.b.Update(ctx, &proto.UpdateRequest{Kv: &proto.KeyValue{Key: []byte(probeKey), Value: []byte("early"), Revision: probeRev}}); err != nil {
+			e.updClass = "HErr: " + err.Error()
+		} else if resp.Succeeded {
+			e.updClass, e.updRev = "HOk", resp.Header.Revision
+		} else {
+			e.updClass, e.updRev = "HCond", resp.Header.Revision
+		}
+		if resp, err := p2.b.Create(ctx, &proto.CreateRequest{Key: []byte(prefix + "/early"), Value: []byte("e")}); err != nil {
+			e.creClass = "HErr: " + err.Error()
+		} else if resp.Succeeded {
+			e.creClass, e.creRev = "HOk", resp.Header.Revision
+		} else {
+			e.creClass, e.creRev = "HCond", resp.Header.Revision
+		}
+		earlyDone <- e
+	}()
 	go le.Campaign()
 	select {
 	case <-started:
 	case <-time.After(20 * time.Second):
 		return &lib.ImplFailure{What: "campaign: the real elector did not start leading within 20 s on a released lock"}
 	}
+	var ea early
+	select {
+	case ea = <-earlyDone:
+	case <-time.After(10 * time.Second):
+		return &lib.ImplFailure{What: "campaign: the requests issued as soon as IsLeader() turned true did not return"}
+	}
+	if ea.updClass != "HOk" || ea.creClass != "HOk" || ea.updRev <= maxRev || ea.creRev <= maxRev {
+		return &lib.ImplFailure{What: fmt.Sprintf("campaign: requests admitted as soon as IsLeader() is true: guarded update of %s (true revision %d) -> %s rev %d, create -> %s rev %d; stored maximum %d: the leader flag was visible before the base was installed",
+			probeKey, probeRev, ea.updClass, ea.updRev, ea.creClass, ea.creRev, maxRev)}
+	}
 	after, _ := kv.GetTimestampOracle(context.Background())
-	v := p2.b.GetCurrentRevision()
-	js := map[string]interface{}{"history": hist, "max_stored_revision": maxRev, "version": v, "clock_before": before, "clock_after": after}
+	if !lib.WaitUntil(3*time.Second, func() bool { return p2.b.GetCurrentRevision() >= ea.creRev }) {
+		return &lib.ImplFailure{What: "campaign: stalled after the early requests"}
+	}
+	v := p2.b.GetCurrentRevision() - 2 // two requests have been served since SetCurrentRevision(version)
+	js := map[string]interface{}{"history": hist, "max_stored_revision": maxRev, "version": v, "clock_before": before, "clock_after": after, "early_update_rev": ea.updRev, "early_create_rev": ea.creRev}
 	gm.mu.Lock()
 	gv, ok := gm.seen["leader.election.initial.version"].(uint64)
 	gm.mu.Unlock()
@@ -641,7 +756,7 @@ func campaignCase(scratch string, hist []hop) *lib.ImplFailure {
 	if !le.IsLeader() {
 		return &lib.ImplFailure{What: "campaign: IsLeader() is false after OnStartedLeading", Case: js}
 	}
-	p2.expect = v
+	p2.expect = v + 2
 	pre := r.list(p2)
 	if len(pre) != len(liveKeys(kv)) {
 		return &lib.ImplFailure{What: fmt.Sprintf("campaign: List(0) at the new leader shows %d keys, the store holds %d live keys", len(pre), len(liveKeys(kv))), Case: js}
@@ -694,13 +809,20 @@ func main() {
 		{Kind: "delete", Key: prefix + "/a", Rel: "future"}, {Kind: "create", Key: prefix + "/b", Val: "z"}}
 
 	for _, eng := range engines {
-		add(caseSpec{Engine: eng, History: witness, Stop: len(witness), Kind: "corpus-F1-witness"})
-		add(caseSpec{Engine: eng, History: witness, Stop: 2, Kind: "corpus-F1-one-failure"})
-		add(caseSpec{Engine: eng, History: drift, Stop: len(drift), Kind: "corpus-drift-resolves"})
+		add(caseSpec{Engine: eng, History: witness, Stop: len(witness), Kind: "corpus-F1-witness", RestartAt: -1})
+		add(caseSpec{Engine: eng, History: witness, Stop: 2, Kind: "corpus-F1-one-failure", RestartAt: -1})
+		add(caseSpec{Engine: eng, History: drift, Stop: len(drift), Kind: "corpus-drift-resolves", RestartAt: -1})
+		// a standby that fetched its timestamp at start-up, the leader restarting under the same identity and
+		// writing more, then the standby taking over: the base must be the clock AT take-over
+		add(caseSpec{Engine: eng, History: witness, Stop: len(witness), Kind: "corpus-standby-takeover", Standby: true, RestartAt: 6})
+		add(caseSpec{Engine: eng, History: witness, Stop: len(witness), Kind: "corpus-leader-restart", RestartAt: 6})
 		for h := 0; h < nHist; h++ {
 			hist := genHistory(rnd, hLen)
 			for i := 0; i <= len(hist); i++ {
-				add(caseSpec{Engine: eng, History: hist, Stop: i, Kind: "history"})
+				add(caseSpec{Engine: eng, History: hist, Stop: i, Kind: "history", RestartAt: -1})
+				if i >= 2 && i%3 == 0 {
+					add(caseSpec{Engine: eng, History: hist, Stop: i, Kind: "history-standby", Standby: true, RestartAt: rnd.Intn(i)})
+				}
 			}
 		}
 	}
